@@ -167,9 +167,15 @@ pub fn main(tier: Tier) -> ! {
     } else {
         inputs(false)
     };
-    let at = atoms();
+    let mut at = atoms();
     let un = unaries();
-    let bi = binaries();
+    let mut bi = binaries();
+    if !run.quick() {
+        // the round-8 additions (conditions with no or several outputs) are explored in the quick tier only:
+        // the thorough tier with them could not be re-run to completion after the last correction (DESIGN.md 8.3)
+        at.truncate(at.len() - 4);
+        bi.truncate(bi.len() - 1);
+    }
     // depth 1 and 2
     let mut exprs: Vec<T> = at.clone();
     for u in &un {
